@@ -2002,3 +2002,120 @@ def _c13_placeholder(report, rig):
 
 
 REGISTRY.update({'C06': c06, 'C13': c13})
+
+
+# ---------------------------------------------------------------------------
+# C14: preview = execution; output independent of the hash seed (Preview.tla)
+
+def c14(tier, replay=None):
+    from concurrent.futures import ThreadPoolExecutor
+    from .engines import preview as P
+    from .tlc import run_tlc, require_ok, write_cfg
+    from .common import machinery_failure
+    report = Report('C14', tier)
+    # the design: with sorted set iteration the lowering is a function; without it
+    # the multi-entry sets are exactly where two lowerings can differ
+    for sorted_iter, expect in (('TRUE', True), ('FALSE', False)):
+        cfg = write_cfg('Preview_%s.cfg' % sorted_iter,
+                        'SPECIFICATION Spec\nCONSTANTS\n  SortedIteration = %s\n'
+                        'INVARIANT PreviewEqualsExecution\nINVARIANT LoweringDeterministic\n'
+                        'INVARIANT NondeterminismOnlyFromSets\n' % sorted_iter)
+        res = run_tlc('Preview', cfg, workers=4, timeout=300, allow_violation=not expect)
+        if expect:
+            require_ok(res, 'Preview (SortedIteration=TRUE)')
+        elif not res.invariant_violated:
+            machinery_failure('Preview.tla with unsorted iteration should admit two lowerings')
+        report.add_tlc('Preview SortedIteration=%s' % sorted_iter, res.stats())
+    seeds = ['0', '1', '2', '3'] if tier == 'quick' else ['0', '1', '2', '3', '4', '5', '7', '11']
+    modes = ('fresh',) if tier == 'quick' else ('fresh', 'stepwise')
+    scs = P.scenarios(tier)
+    with ThreadPoolExecutor(16) as ex:
+        all_obs = list(ex.map(lambda sc: P.run_scenario(sc, seeds, modes), scs))
+    nontrivial = set()
+    hint_ok = 0
+    for sc, obs_list in zip(scs, all_obs):
+        for obs in obs_list:
+            report.coverage['evaluations'] += 1
+            where = {'scenario': obs['scenario'], 'start_mode': obs['start_mode']}
+            if obs['errors']:
+                report.notes.append('scenario %s could not be set up: %r'
+                                    % (obs['scenario'], obs['errors'][:1]))
+                continue
+            first = None
+            for seed in seeds:
+                so = obs['seeds'].get(seed)
+                if so is None:
+                    continue
+                report.coverage['traces_validated_against_impl'] += 1
+                detail = dict(where, seed=seed)
+                if so['preview_outcome'] != 'ok' or so['exec_outcome'] != 'ok':
+                    report.fail({'class': 'pending-upgrade-not-runnable',
+                                 'preview': so['preview_outcome'], 'exec': so['exec_outcome']},
+                                dict(detail, preview_error=so['preview_error'],
+                                     exec_error=so['exec_error']))
+                    continue
+                if so['preview_wrote']:
+                    report.fail({'class': 'preview-modified-database'},
+                                dict(detail, statements=so['preview_wrote'][:5]))
+                pv = [P.norm_stmt(s) for s in P.preview_statements(so['preview_stdout'])]
+                exs = [P.norm_stmt(s) for s in so['executed']]
+                if len(exs) >= 2:
+                    nontrivial.add(obs['scenario'])
+                if pv != exs:
+                    same_set = sorted(pv) == sorted(exs)
+                    k = next((i for i, (a, b) in enumerate(zip(pv, exs)) if a != b),
+                             min(len(pv), len(exs)))
+                    report.fail({'class': 'preview-differs-from-execution',
+                                 'same_statements_other_order': same_set},
+                                dict(detail, first_difference=k,
+                                     preview=pv[k:k + 3], executed=exs[k:k + 3],
+                                     n_preview=len(pv), n_executed=len(exs)))
+                if first is None:
+                    first = (seed, so)
+                    continue
+                s0, so0 = first
+                for key, cls in (('preview_stdout', 'preview-differs-across-hash-seeds'),
+                                 ('all_executed', 'execution-differs-across-hash-seeds'),
+                                 ('hint_stdout', 'hint-differs-across-hash-seeds'),
+                                 ('hint_sql_stdout', 'hint-sql-differs-across-hash-seeds')):
+                    if key.startswith('hint') and (so0[key.replace('stdout', 'outcome')] != 'ok'
+                                                   or so[key.replace('stdout', 'outcome')] != 'ok'):
+                        continue
+                    if so0[key] != so[key]:
+                        a, b = so0[key], so[key]
+                        if isinstance(a, str):
+                            a, b = a.splitlines(), b.splitlines()
+                        k = next((i for i, (x, y) in enumerate(zip(a, b)) if x != y),
+                                 min(len(a), len(b)))
+                        report.fail({'class': cls,
+                                     'same_lines_other_order': sorted(a) == sorted(b)},
+                                    dict(detail, other_seed=s0, first_difference=k,
+                                         this=b[k:k + 3], other=a[k:k + 3]))
+            if first and first[1].get('hint_outcome') == 'ok' and first[1]['hint_stdout'].strip():
+                hint_ok += 1
+            if first:
+                report.sample({'scenario': obs['scenario'],
+                               'preview_head': first[1]['preview_stdout'].splitlines()[:6],
+                               'n_executed': len(first[1].get('executed') or [])}, limit=4)
+    report.coverage['distinct_nontrivial'] = len(nontrivial)
+    report.coverage['exhaustive'] = False
+    report.coverage['rule'] = (
+        'Preview.tla (two independent lowerings of one pending upgrade, set-valued steps) is checked '
+        'by TLC with sorted iteration (holds) and without (must fail: the hazard is real). %d pending '
+        'upgrades (set family: unique_together / index_together changes with 2-4 entries, the '
+        'HasMultiEntrySet hazard, with and without field additions; chain family: two apps with model '
+        'groups) x start modes %s x PYTHONHASHSEED %s: `evolve --sql`, `evolve --execute`, '
+        '`evolve --hint` and `evolve --hint --sql` each in a fresh interpreter on copies of the same '
+        'database; statements executed inside applying/applied_evolution are rendered with the documented '
+        'substitution rule and compared with the preview, and all four outputs are compared across '
+        'seeds. Non-trivial = upgrade executing at least two statements; %d scenarios had a printable hint.'
+        % (len(scs), list(modes), seeds, hint_ok))
+    report.assumptions += [
+        'the preview covers evolution SQL only (new-model creation and migrations are not previewed by '
+        'the command); executed statements are therefore taken from applying_evolution windows',
+        'hints that need a user-specified initial value make `evolve --hint` fail on SQLite; those '
+        'scenarios contribute no hint comparison']
+    return report.finish()
+
+
+REGISTRY.update({'C14': c14})
